@@ -20,7 +20,7 @@ META = {
                   'next = NULL and can be inserted anywhere at once, the tail is dereferenced only while it is the genuine last node (stale and bogus tails of empty lists are '
                   'tolerated by the invariant and never followed), N+1 loop iterations always suffice, and list_insert_sorted keeps a sorted list sorted with the new node after '
                   'all its equals. Sampled (not proved): that the model is list.c.',
-    'level_note': 'Trusted: Lean kernel (standard axioms only in the C09 theorems; bv_decide certificate axioms in the *_generated lemmas of Props/C09Tie.lean, in Gen/MemWord.lean (a 64-bit load after a 64-bit store) and sep_comm/sep_self8); tools/c2lean2.py + clang AST (tie T2 for all ten functions: pointers are 64-bit values, list_t/list_node_t/list_iterator_t live in the byte memory with the x86-64 layout, NDEBUG build so the asserts are not translated; the layer-2 theorems assume objects 8-byte aligned in one window of 2^40 words that excludes address 0, different objects at different cells, the iterator object apart from the heap cells); the loops of list_contains/list_remove/list_insert_sorted are recursive definitions with a fuel argument and their ties are by induction (any length); the comparator is assumed to be a pure function whose sign agrees with the model's; the hand model of list.c is validated on every run against the real list.c built with ASan '
+    'level_note': 'Trusted: Lean kernel (standard axioms only in the C09 theorems; bv_decide certificate axioms in the *_generated lemmas of Props/C09Tie.lean, in Gen/MemWord.lean (a 64-bit load after a 64-bit store) and sep_comm/sep_self8); tools/c2lean2.py + clang AST (tie T2 for all ten functions: pointers are 64-bit values, list_t/list_node_t/list_iterator_t live in the byte memory with the x86-64 layout, NDEBUG build so the asserts are not translated; the layer-2 theorems assume objects 8-byte aligned in one window of 2^40 words that excludes address 0, different objects at different cells, the iterator object apart from the heap cells); the loops of list_contains/list_remove/list_insert_sorted are recursive definitions with a fuel argument and their ties are by induction (any length); the comparator is assumed to be a pure function whose sign agrees with that of the model comparator; the hand model of list.c is validated on every run against the real list.c built with ASan '
                   '(corpus of past failures; structured random histories to length 200 over 8 nodes x 3 lists x 4 iterators biased to removal of the last/only node then any insertion, '
                   'iterators past the end, equal keys; every call from every reachable state of a 3-node x 2-list x 1-iterator scope to the fixed point; thorough tier adds all histories '
                   'of length <= 4 of that scope and two larger state spaces) - that tie is sampling, not proof. Lists beyond the 8-node pool (255..70000 members, around every width a hidden member counter could have) are run on the real code only, against the Python sequence oracle, not through the Lean model. The Python oracle used for gating is checked against the Lean spec on every run. '
